@@ -664,8 +664,30 @@ class Engine:
                 late["outcome"] = e
 
         ctx.add_teardown_callback(lookups_during_teardown)
+        # a listener of this context's resource_added signal that subscribed while the context was open and keeps listening while
+        # it is torn down (a registry mirroring what is published): what is published during the teardown reaches it as well
+        heard: list[Any] = []
+        subscribed, stop = anyio.Event(), anyio.Event()
+
+        async def teardown_listener() -> None:
+            async with ctx.resource_added.stream_events(max_queue_size=1000) as stream:
+                subscribed.set()
+                async with create_task_group() as ptg:
+                    async def pump() -> None:
+                        async for ev in stream:
+                            heard.append(ev)
+
+                    ptg.start_soon(pump)
+                    await stop.wait()
+                    ptg.cancel_scope.cancel()
+
+        self.tg.start_soon(teardown_listener)
+        await subscribed.wait()
         await a.send.send((None, None))
         await a.left.wait()
+        for _ in range(4):
+            await checkpoint()
+        stop.set()
         for (t, name), (kind, got) in during_teardown.items():
             tag = mc.resources[(t, name)].tag
             self.inc("lookups_during_teardown")
@@ -706,6 +728,10 @@ class Engine:
             late_events.append((cid, [(0,)], f"late_{cid}", None, False))
         elif "outcome" in late:
             self.bad("add-unexpected-exception", f"{cmd}: add_resource() from a teardown callback of context {cid} raised {describe_exc(late['outcome'])}")
+        self.inc("listeners_kept_through_a_teardown")
+        if len(heard) != len(late_events) and not self.fatal:
+            self.bad("announce-listener", f"{cmd}: a listener that subscribed to context {cid} while it was open and kept listening during its teardown "
+                                          f"received {len(heard)} event(s); published during the teardown: {self.fmt_events(late_events)}")
         mc.state = "closed"
         if mc.parent is not None:
             self.model.ctxs[mc.parent].open_children.discard(cid)
